@@ -361,6 +361,23 @@ pub fn c10(cx: &mut Ctx) {
             }
         }
     }
+    // a close-delimited body that the caller never reads (the peer closed right after the head, or the body is
+    // discarded): can_proceed() is true at once, and the connection must close all the same
+    for head in ["HTTP/1.1 200 OK\r\n\r\n", "HTTP/1.1 200 OK\r\nX: y\r\n\r\n", "HTTP/1.0 200 OK\r\nTransfer-Encoding: chunked\r\n\r\n", "HTTP/1.1 404 N\r\n\r\n"] {
+        for reads in 0..3 {
+            cx.case("noread");
+            if cx.rec.new_flow("GET HTTP/1.1 http://a.test/p 0") != "ok" { continue; }
+            cx.op("proceed"); cx.op("write 4096"); cx.op("proceed");
+            cx.op(&format!("resp {}", hx(head.as_bytes())));
+            cx.op("proceed");
+            if cx.rec.state() != "recvBody" { continue; }
+            match reads { 1 => { cx.op("bread - 10"); } 2 => { cx.op("bread 6162 10"); } _ => {} }
+            cx.op("canproceed");
+            cx.op("proceed");
+            cx.op("close?");
+            cx.op("reason");
+        }
+    }
     // a bare informational response other than 100 while awaiting 100 is "a non-100 response"
     for interim in ["HTTP/1.1 101 Switching\r\n\r\n", "HTTP/1.1 102 Processing\r\n\r\n", "HTTP/1.0 199 \r\n\r\n", "HTTP/1.1 103\r\n\r\n", "HTTP/1.1 100 Continue\r\n\r\n"] {
         for (m, despite) in [("POST", false), ("PUT", false)] {
@@ -599,6 +616,43 @@ pub fn c12(cx: &mut Ctx) {
                 } else {
                     cx.op("proceed");
                     cx.op("close?");
+                }
+            }
+        }
+    }
+    // (8) the single-call API facing the same bytes: try_response / read with empty, short and hostile inputs
+    {
+        let mut ins: Vec<Vec<u8>> = vec![vec![], b"\r".to_vec(), b"\n".to_vec(), b"H".to_vec(), b"HTTP/1.1 200 OK\r\n".to_vec(), b"HTTP/1.1 200 OK\r\nA: b\r\n\r".to_vec(),
+            b"HTTP/1.1 301 M\r\nLocation: /x\r\n".to_vec(), b"HTTP/1.1 301 M\r\nLocation: /x\r\nA".to_vec(), b"HTTP/1.1 100 Continue\r\n\r\n".to_vec(), b"\x00\xff".to_vec()];
+        for s in strings.iter().step_by(if cx.thorough { 3 } else { 17 }) { ins.push(s.clone()); }
+        for chunk in ins.chunks(12) {
+            cx.case("callh");
+            for w in chunk {
+                if cx.rec.state() != "callRecvResponse" {
+                    if cx.rec.new_call("nobody", "GET HTTP/1.1 http://a.test/p 0") != "ok" { continue; }
+                    cx.op("cwrite 2000");
+                    cx.op("cinto");
+                }
+                cx.op(&format!("cresp {}", hx(w)));
+                cx.op("cfinished");
+            }
+        }
+        for (hi, head) in heads.iter().enumerate() {
+            for chunk in ins.chunks(12) {
+                cx.case("callb");
+                let _ = hi;
+                for w in chunk {
+                    if cx.rec.state() != "callRecvBody" {
+                        if cx.rec.new_call("nobody", "GET HTTP/1.1 http://a.test/p 0") != "ok" { continue; }
+                        cx.op("cwrite 2000");
+                        cx.op("cinto");
+                        cx.op(&format!("cresp {}", hx(head)));
+                        if cx.op("cbody") != "state callRecvBody" { break; }
+                    }
+                    cx.op("cended");
+                    cx.op(&format!("cread {} {}", hx(w), [0usize, 1, 100][w.len() % 3]));
+                    cx.op(&format!("cread - 10"));
+                    cx.op(&format!("cread {} 0", hx(w)));
                 }
             }
         }
